@@ -580,6 +580,23 @@ namespace bloch::runtime {
         m_gcCv.notify_all();
         if (m_gcThread.joinable())
             m_gcThread.join();
+        // Drop every object reference while the evaluator is still intact. Objects that are
+        // alive here (statics, or locals left behind by a runtime error) are released without
+        // running user destructors: their deleters call back into this evaluator, which must
+        // not happen while its members are being destroyed.
+        {
+            std::lock_guard<std::mutex> lock(m_heapMutex);
+            for (auto& w : m_heap) {
+                if (auto obj = w.lock())
+                    obj->skipDestructor = true;
+            }
+        }
+        m_env.clear();
+        m_returnValue = {};
+        for (auto& kv : m_classTable) {
+            if (kv.second)
+                kv.second->staticStorage.clear();
+        }
     }
 
     Value RuntimeEvaluator::lookup(const std::string& name) {
